@@ -66,6 +66,8 @@ ASSUMPTIONS = [
 ]
 
 SIZES = [0, 0, 1, 8, 23, 24, 25, 36, 80, 252, 253, 1000, 8000, 65535, 65536, 70000]
+# sizes around the block / chunk sizes implementations like to use (2^k and 2^k +- 1)
+EDGE_SIZES = [55, 56, 63, 64, 65, 119, 127, 128, 129, 255, 256, 257, 511, 512, 513, 1023, 1024, 1025, 4095, 4096, 4097, 8191, 8192, 8193, 16383, 16384, 16385, 32767, 32768, 32769, 65537]
 
 
 # --------------------------------------------------------------------------- plan
@@ -170,6 +172,10 @@ def plan(seed, tier="quick", index=0):
             size = rng.choice(SIZES[:9]) if small else rng.choice(SIZES)
             if rng.random() < 0.3:
                 size = rng.randrange(0, 300)
+            elif rng.random() < 0.25:
+                size = rng.choice(EDGE_SIZES)
+            elif rng.random() < 0.05:
+                size = rng.randrange(0, 70001)
             inside = rng.random() < 0.8
             cmd = rng.choice(COMMAND_TABLE) if inside else rng.choice(["sendheaders", "feefilter", "wtxidrelay", "x", "twelve_chars", ""])
             fr.append({"cmd": cmd, "payload_seed": rng.getrandbits(32), "size": size, "built": "lib" if inside and rng.random() < 0.8 else "ref"})
@@ -191,7 +197,7 @@ def plan(seed, tier="quick", index=0):
         other = rng.choice([m for m in sorted(MAGICS) if m != network])
         sc["prelude"] = {"network": other, "cmds": [f["cmd"] for f in fr if f["cmd"] in COMMAND_TABLE][:2] or ["ping"], "size": rng.choice([0, 8, 40])}
     if stratum == "bitflip":
-        sc["fault"] = {"kind": "bitflip", "frame": rng.randrange(nframes), "field": rng.choice(["magic", "command", "length", "checksum", "payload", "any"]), "pick": rng.getrandbits(32)}
+        sc["fault"] = {"kind": "bitflip", "frame": rng.randrange(nframes), "field": rng.choice(["magic", "command", "length", "checksum", "payload", "payload", "payload-first", "payload-last", "any"]), "pick": rng.getrandbits(32)}
     elif stratum == "truncate":
         sc["fault"] = {"kind": "truncate", "pick": rng.getrandbits(32), "where": rng.choice(["any", "any", "header", "boundary", "last-byte"])}
         if rng.random() < 0.5:
@@ -484,7 +490,7 @@ def execute(scenario, tape=None, keep_events=False):
             if fault["kind"] == "bitflip":
                 s0, fb, payload, _, _ = built[fault["frame"]]
                 field = fault["field"]
-                ranges = {"magic": (0, 4), "command": (4, 16), "length": (16, 20), "checksum": (20, 24), "payload": (24, len(fb)), "any": (0, len(fb))}
+                ranges = {"magic": (0, 4), "command": (4, 16), "length": (16, 20), "checksum": (20, 24), "payload": (24, len(fb)), "any": (0, len(fb)), "payload-first": (24, min(25, len(fb))), "payload-last": (max(24, len(fb) - 1), len(fb))}
                 lo, hi = ranges[field]
                 if hi <= lo:
                     lo, hi = 0, 24
